@@ -2,6 +2,7 @@
 from .. import core, sx
 from ..areas import tcp as T
 from ..extract import tcp as xtcp
+import errno
 
 
 def _payload(ops):
@@ -49,6 +50,14 @@ class C09(core.Check):
             ("remotertls", True, [("tx", b"hello"), ("svc",), ("svc",)], [("acc", 2), ("f", T.SSLEOF)], [("d", b"abc"), ("f", T.SSLEOF)]),
             ("remotertls", False, [("tx", b"hello world"), ("ss",)] + [("ss",)] * 12, [("acc", 1)] * 14, []),
             ("client", True, [("tx", b"a" * 100), ("ss",), ("tx", b"b" * 100), ("ss",), ("ss",)], [("acc", 150), ("acc", 10), ("acc", 1000)], []),
+            # a wire log attached to the server that is still closed when a connection is accepted and opened afterwards
+            ("srvw", False, False, [("conn", 1, [("acc", 9), ("acc", 9)], [("d", b"ab"), ("f", T.EAGAIN), ("d", b"cd")], []), ("svc",), ("tx", 1, b"xy"), ("svc",), ("wlopen",), ("tx", 1, b"z"), ("svc",), ("svc",)]),
+            ("srvw", True, True, [("conn", 1, [("acc", 1), ("acc", 9)], [("d", b"ab")], [("ok",)]), ("svc",), ("tx", 1, b"xy"), ("svc",), ("wlopen",), ("conn", 2, [("acc", 9)], [("d", b"q")], [("ok",)]), ("svc",), ("tx", 2, b"k"), ("svc",), ("svc",)]),
+            ("wlclosed", "client"), ("wlclosed", "clienttls"), ("wlclosed", "remoter"), ("wlclosed", "remotertls"),
+            # bytes queued before the connection is up must survive refused connects, the retry timer and an aborted handshake
+            ("life", False, False, 0, [("tx", b"abc"), ("connect", errno.ECONNREFUSED, None), ("connect", 0, None), ("feed", [("acc", 9)], []), ("service", 0, None)]),
+            ("life", False, True, 2, [("tx", b"ab"), ("connect", errno.EINPROGRESS, None), ("tick", 2), ("connect", errno.EALREADY, None), ("tx", b"c"), ("service", 0, None), ("feed", [("acc", 1), ("acc", 9)], []), ("service", 0, None), ("service", 0, None)]),
+            ("life", True, False, 0, [("tx", b"hello"), ("connect", 0, ("f", errno.ECONNRESET)), ("connect", 0, None), ("connect", 0, ("ok",)), ("feed", [("acc", 2), ("acc", 9)], []), ("service", 0, None), ("service", 0, None), ("reopen",), ("tx", b"x"), ("close",)]),
             # the other entry points and every wire log configuration
             ("client", "std", [("tx", b"abc"), ("svc",), ("sro",), ("clr",), ("sro",)], [("acc", 2)], [("d", b"hello"), ("d", b"xy"), ("d", b"z")]),
             ("remotertls", "samed", [("send1", b"hello"), ("recv1",), ("recv1",), ("send1", b"")], [("acc", 3)], [("d", b"ab"), ("d", b"")]),
@@ -72,6 +81,42 @@ class C09(core.Check):
         yield from self._real_cases(rng, 6 if tier == "quick" else 150, tier == "thorough")
         for i in range(n):
             kind = rng.choice(T.KINDS)
+            if i % 11 == 2:
+                # a WireLog attached to the server, open from the start or opened later (also re-opened), distinct peer addresses,
+                # text payloads (the shared log is parsed per connection)
+                tls = rng.random() < 0.5
+                alpha = lambda n_: bytes(rng.randrange(97, 123) for _ in range(n_))
+                ncon = rng.randrange(1, 4)
+                ops = []
+                cas = list(range(1, ncon + 1))
+                pend = list(cas)
+                rng.shuffle(pend)
+                def mk(ca):
+                    recvs = []
+                    for _ in range(rng.randrange(1, 5)):
+                        recvs.append(("d", alpha(rng.choice([1, 2, 5]))))
+                        if rng.random() < 0.6:
+                            recvs.append(("f", T.wouldblock_codes("remotertls" if tls else "remoter")[0]))
+                    return ("conn", ca, [("acc", rng.choice([1, 2, 1 << 30])) for _ in range(rng.randrange(1, 6))], recvs, [("ok",)] if tls else [])
+                for _ in range(rng.randrange(4, 14)):
+                    q = rng.random()
+                    if q < 0.2 and pend:
+                        ops.append(mk(pend.pop()))
+                    elif q < 0.35:
+                        ops.append(("wlopen",))
+                    elif q < 0.6:
+                        ops.append(("tx", rng.choice(cas), alpha(rng.choice([1, 3, 6]))))
+                    else:
+                        ops.append(("svc",))
+                ops += [("svc",), ("wlopen",) if rng.random() < 0.5 else ("svc",), ("tx", rng.choice(cas), alpha(3)), ("svc",), ("svc",)]
+                yield ("srvw", tls, rng.random() < 0.35, ops)
+                continue
+            if i % 6 == 1:
+                # the whole life of a client: bytes queued before / between connections, failed attempts, reopen, reconnect timer
+                tls = rng.random() < 0.5
+                tmo = rng.choice([0, 2, 8])
+                yield ("life", tls, rng.random() < 0.7, tmo, T.gen_client_ops(rng, tls, tmo, early_tx=rng.random() < 0.7))
+                continue
             if i % 5 == 0:
                 # backlog larger than the object's .bs, a short send on an early slice, then the socket accepts again at once
                 bs = rng.choice([4, 8, 16, 64, 64, None])
@@ -171,6 +216,12 @@ class C09(core.Check):
     def request(self, case):
         if case[0] == "real":
             return ("noop",)
+        if case[0] == "life":
+            return T.request_client(*case[1:5])
+        if case[0] == "wlclosed":
+            return ("noop",)
+        if case[0] == "srvw":
+            return ("serverw", bool(case[1]), bool(case[2]), T.request_server(case[3]))
         kind, wl, ops, sends, recvs = case[:5]
         bs = case[5] if len(case) > 5 else 8096
         return ("conn", kind, bool(wl), [tuple(o) for o in ops], [tuple(s) for s in sends], T.chop(recvs, bs))
@@ -178,11 +229,23 @@ class C09(core.Check):
     def run_impl(self, case):
         if case[0] == "real":
             return T.run_real_stream(case)
+        if case[0] == "life":
+            return T.run_client(tuple(case[1:5]))
+        if case[0] == "wlclosed":
+            return T.run_wl_closed(case)
+        if case[0] == "srvw":
+            return T.run_server((case[1], case[3], "direct", bool(case[2])))
         return T.run_conn(case)
 
     def compare_view(self, case, obs):
         if case[0] == "real":
             return "noop"
+        if case[0] == "life":
+            return sx.dumps(obs)
+        if case[0] == "wlclosed":
+            return "noop"
+        if case[0] == "srvw":
+            return sx.dumps(T.strip_hard(obs))
         return sx.dumps(obs)
 
     def _real_cases(self, rng, n, big):
@@ -209,6 +272,47 @@ class C09(core.Check):
                     bad.append("wirelog-tx")
                 if not wrx:
                     bad.append("wirelog-rx")
+            return bad
+        if case[0] == "wlclosed":
+            raised, rx_ok, tx_ok = obs
+            return (["wirelog-closed-breaks-traffic"] if raised or not (rx_ok and tx_ok) else [])
+        if case[0] == "srvw":
+            # a WireLog attached to the SERVER: from the moment it is (re)opened every byte any connection sends or receives is
+            # in it, whenever that connection was accepted; bytes moved while it was closed are not recorded
+            bad = []
+            base = {}      # socket index -> (|kacc|, |rxbs|) when the log was last opened (or the connection appeared)
+            isopen = bool(case[2])
+            st0, steps = obs
+            prev = ()
+            for op, (st, snap) in zip(case[3], steps):
+                if op[0] == "wlopen":
+                    isopen = True
+                    base = {i: (len(e[6]), len(e[4])) for i, e in enumerate(snap) if e[0] != "listen"}
+                for i, e in enumerate(snap):
+                    if e[0] == "listen":
+                        continue
+                    if i not in base:
+                        # first sight of this connection: what it moved in this very pass was logged iff the log is open
+                        base[i] = (0, 0) if isopen else (len(e[6]), len(e[4]))
+                    elif not isopen:
+                        base[i] = (len(e[6]), len(e[4]))
+                    kacc, rx, wtx, wrx = e[6], e[4], e[8], e[9]
+                    if wtx != kacc[base[i][0]:]:
+                        bad.append("wirelog-tx")
+                    if wrx != rx[base[i][1]:]:
+                        bad.append("wirelog-rx")
+            return sorted(set(bad))
+        if case[0] == "life":
+            # over the whole life of the client object: what its sockets accepted so far ++ what is still queued == everything
+            # handed to tx() since construction, after every call
+            bad = []
+            pay = b""
+            for op, st in zip(case[4], obs):
+                if op[0] == "tx":
+                    pay += op[1]
+                if st[7] + st[8] != pay:
+                    bad.append("peer-not-prefix-in-order" if len(st[7]) + len(st[8]) == len(pay) else "bytes-lost-or-duplicated")
+                    break
             return bad
         kind, wl, ops, sends, recvs = case[:5]
         steps, (txbs, rxbs, kacc, kdel, wtx, wrx, cutoff) = obs
@@ -282,6 +386,10 @@ class C09(core.Check):
 
     def known(self, case, obs, clauses):
         # C09-K2: RemoterTls with a wire log on a connection the peer has reset (who=self.cs.getpeername() raises)
+        if case[0] == "wlclosed":
+            return "C09-K5"
+        if case[0] in ("life", "srvw", "real"):
+            return None
         if case[0] == "remotertls" and case[1] and any(o[0] == "rst" for o in case[2]):
             return "C09-K2"
         return None
@@ -291,6 +399,12 @@ class C09(core.Check):
             return True
         if case[0] == "real":
             return obs[5] > 20000
+        if case[0] == "life":
+            return len({o[2] for o in obs}) >= 2 and any(o[7] for o in obs)
+        if case[0] == "wlclosed":
+            return True
+        if case[0] == "srvw":
+            return any(op[0] == "wlopen" for op in case[3]) and any(e[0] != "listen" and (e[8] or e[9]) for st, snap in obs[1] for e in snap)
         kind, wl, ops, sends, recvs = case[:5]
         steps = obs[0]
         ntx = sum(1 for o in ops if o[0] == "tx" and o[1])
@@ -302,6 +416,17 @@ class C09(core.Check):
     def features(self, case, obs):
         if case[0] in ('real',) and len(obs) == 2 and obs[0] == "EXC":
             return ["escaped"]
+        if case[0] == "wlclosed":
+            return ["wirelog-closed-then-traffic"]
+        if case[0] == "srvw":
+            return ["server-wirelog", "server-wirelog:" + ("starts-open" if case[2] else "starts-closed")] + \
+                (["server-wirelog:opened-later"] if any(op[0] == "wlopen" for op in case[3]) else [])
+        if case[0] == "life":
+            f = ["client-life", "client-life:" + ("tls" if case[1] else "plain"), "sockets:%d" % min(6, len({o[2] for o in obs if o[2] is not None}))]
+            first = next((i for i, o in enumerate(obs) if o[3]), None)
+            if first is not None and any(op[0] == "tx" for op in case[4][:first]):
+                f.append("tx-before-connected")
+            return f
         if case[0] == "real":
             return ["real-loopback", "real:" + ("tls" if case[1] else "plain"), "real:" + case[2], "real-bytes:" + ("<100k" if obs[5] < 100000 else ">=100k")]
         kind, wl, ops, sends, recvs = case[:5]
@@ -335,6 +460,18 @@ class C09(core.Check):
         return f
 
     def shrink(self, case):
+        if case[0] == "life":
+            head, ops = case[:4], case[4]
+            for i in range(len(ops)):
+                yield head + (ops[:i] + ops[i + 1:],)
+            return
+        if case[0] == "wlclosed":
+            return
+        if case[0] == "srvw":
+            ops = case[3]
+            for i in range(len(ops)):
+                yield case[:3] + (ops[:i] + ops[i + 1:],)
+            return
         if case[0] != "real" and len(case) > 5:
             for c in self.shrink(case[:5]):
                 yield c + (case[5],)
@@ -356,7 +493,7 @@ class C09(core.Check):
                 yield (kind, wl, ops[:i] + [("tx", o[1][:len(o[1]) // 2])] + ops[i + 1:], sends, recvs)
 
     def mutate(self, rng, case):
-        if case[0] == "real":
+        if case[0] in ("real", "life", "wlclosed", "srvw"):
             return []
         if len(case) > 5:
             return [c + (case[5],) for c in self.mutate(rng, case[:5])] + [case[:5]]
